@@ -158,7 +158,7 @@ class ExecutorPool:
         return {"n": self.n}
 
 
-SCHEDULES = ["vec", "scalar", "reversed", "permuted", "threads", "fullapi", "executor", "int1", "int2"]
+SCHEDULES = ["vec", "vec-ro", "scalar", "reversed", "permuted", "threads", "fullapi", "executor", "int1", "int2"]
 
 
 def one(cfg, schedule, seed):
@@ -166,11 +166,15 @@ def one(cfg, schedule, seed):
     c = runs.full(dict(cfg, seed=seed))
     blobs = c["mode"] == "blobs"
     pool = None
-    if schedule == "vec":
+    if schedule in ("vec", "vec-ro"):
         if blobs:
             return dict(skip="vectorised likelihood cannot return blobs (rejected by the configuration)")
         c["mode"] = "vec"
         c["pointwise"] = True
+        if schedule == "vec-ro":
+            # the vectorised likelihood owns its output memory: it returns a read-only view of one buffer that the next
+            # call overwrites (compiled models, JAX arrays seen through numpy)
+            c["ro_buffer"] = True
     else:
         c["mode"] = "blobs" if blobs else "scalar"
         pool = {"scalar": None, "reversed": ReversedPool(), "permuted": PermutedPool(seed + 5), "threads": ThreadedPool(4, seed + 7), "fullapi": FullAPIPool(3, seed + 9), "executor": ExecutorPool(4, seed + 11),
@@ -222,7 +226,7 @@ def run():
     tasks = []
     for ci, cfg in enumerate(cfgs):
         for r in range(nseeds):
-            sch = SCHEDULES if (r == 0 or not ck.quick) else SCHEDULES[:7]
+            sch = SCHEDULES if (r == 0 or not ck.quick) else SCHEDULES[:8]
             tasks.append(("tvf.checks.c13:group", dict(cfg=cfg, seed=ck.subseed("s", ci, r) % 10 ** 6, schedules=sch), None))
     for i, st, val in farm.run(tasks, timeout=1200, jobs=8, progress="C13"):
         kw = tasks[i][1]
@@ -253,7 +257,7 @@ def run():
             elif r["dg"] != ref[1]["dg"] or r["post"] != ref[1]["post"] or r["logz"] != ref[1]["logz"]:
                 ck.violation("schedule-changes-result", f"same seed, pointwise identical likelihood: schedule {sc} gives logZ {r['logz']!r} / {r['n_iter']} iterations, "
                              f"schedule {ref[0]} gives {ref[1]['logz']!r} / {ref[1]['n_iter']}", dict(cfg=kw["cfg"], seed=kw["seed"], schedule=sc))
-    need = ["runs under schedule vec", "runs under schedule scalar", "runs under schedule reversed", "runs under schedule permuted",
+    need = ["runs under schedule vec", "runs under schedule vec-ro", "runs under schedule scalar", "runs under schedule reversed", "runs under schedule permuted",
             "runs under schedule threads", "runs under schedule fullapi", "runs under schedule executor", "out-of-order completions observed in the thread pool"]
     ck.require_events(*need)
     return ck.finish(
